@@ -45,8 +45,8 @@ theorem state_to_graph_validator_sound (t : STab) (gates : List Gate) (adj : Nat
 theorem wf_inBounds (n : Nat) (g : Gate) (h : g.WF n) : g.inBounds n = true := by
   cases g <;> simp_all [Gate.WF, Gate.inBounds]
 
-/-- **`state_to_graph` is sound** (every n, every input tableau, every candidate GF(2) inverse `inv` — whatever the floating-point
-    `det · inv % 2` of `_graph_finder` evaluates to): whenever the modelled `state_to_graph` returns `(graph, gates)`, the graph is
+/-- **`state_to_graph` is sound** (every n, every input tableau, every candidate GF(2) inverse `inv` — whatever the inverse
+    computation of `_graph_finder` evaluates to, the code re-checks it): whenever the modelled `state_to_graph` returns `(graph, gates)`, the graph is
     simple, the gates are in range, and running them on the input tableau gives a tableau that generates exactly — signs
     included — the signed group of the graph state.  This is the conclusion of `state_to_graph_validator_sound`, now as a theorem
     about the modelled code (`row_reduction`, `_position_finder`, `hadamard_transform`, the two closing assertions of
@@ -95,24 +95,28 @@ theorem state_to_graph_input_is_state (inv : Nat → Adj → Option Adj) (t : ST
     (`−I` is then not in the group: `no_minus_one_of_indep`.) -/
 def IsStabilizerState (t : STab) : Prop := t.Good ∧ S2G.Indep (S2G.XZ.ofSTab t)
 
-/-- **`state_to_graph` is complete** (every n ≥ 1, every stabilizer state; repaired code, /repo 86ab4f1 (D40) and 8a43724 (D49)):
-    the modelled `state_to_graph` RETURNS a graph and a gate list — none of the assertions of `_graph_finder` ("Stabilizer generators
-    are not independent", "Final Z matrix is not a graph", "Unexpected X matrix"), none of the three closing assertions of
-    `canonical_form` inside `_phase_correction`, and no singular-matrix error fires.
+/-- **`state_to_graph` is complete** (every n ≥ 1, every stabilizer state; code as repaired in /repo 86ab4f1 (D40), 8a43724 (D49) and
+    70adac4 (D51)): the modelled `state_to_graph` RETURNS a graph and a gate list — none of the assertions of `_graph_finder`
+    ("Stabilizer generators are not independent", "Final Z matrix is not a graph", "Unexpected X matrix"), none of the three closing
+    assertions of `canonical_form` inside `_phase_correction`, and no singular-matrix error fires.
     Proof: `row_reduction` keeps independence and commutation and leaves the X part in echelon form; the repaired `_position_finder`
     returns exactly the non-pivot columns; after the Hadamards on them the X part has trivial kernel (rank argument
     `hadamard_rows_independent`), so the inverse exists and passes the re-check; `final_z = z.T @ x_inv` is symmetric because the rows
     commute (`X Zᵀ = Z Xᵀ`); after the `P_dag` gates the X part of the canonical form is the identity, so `_phase_correction` inverts
     the identity.
-    Stated for every inverse computation `inv` that returns a left inverse on every matrix with trivial kernel (`S2G.InvOK`); the exact
-    GF(2) elimination `gf2InvF` of the executable model is one (`state_to_graph_exact_complete`).  What is NOT proved: that the
-    floating-point `np.round(np.linalg.det(x) * np.linalg.inv(x)) % 2` of the Python is such an `inv` (it is, as long as the float
-    determinant/adjugate entries round to the exact integers) — that step is compared per input by the harness. -/
+    Stated for every inverse computation `inv` that returns a left inverse on every matrix with trivial kernel (`S2G.InvOK`).  The code's
+    own inverse — since 70adac4 the exact Gauss–Jordan elimination `_gf2_inverse`, which the model's `gf2Inv`/`gf2InvF` mirrors step by
+    step — is one (`state_to_graph_exact_complete`): NO floating-point step is left in `state_to_graph`, so this is a theorem about the
+    code's own algorithm (tied to the Python by exact comparison of graph, gates and error class on every generated input).
+    History: the proof was first carried out with the float `np.round(det · inv) % 2` of the code replaced by exact elimination; probing
+    the excluded float step at large n exposed D51 (from ≈ 42 qubits on the float product loses the integers and valid states raised),
+    repaired by replacing the float step by the elimination the theorem is about. -/
 theorem state_to_graph_complete (inv : Nat → Adj → Option Adj) (t : STab) (hn : 0 < t.n) (hinv : S2G.InvOK inv t.n)
     (hstate : IsStabilizerState t) : ∃ adj gates, S2G.stateToGraphWith inv t = .ok (adj, gates) :=
   stateToGraphWith_complete inv t hn hinv hstate.1 hstate.2
 
-/-- the instance for the executable model (exact GF(2) elimination), which is the one compared with the Python on every input -/
+/-- the instance for the executable model = the code's own `_gf2_inverse` (exact GF(2) elimination), the one compared with the Python on
+    every input -/
 theorem state_to_graph_exact_complete (t : STab) (hn : 0 < t.n) (hstate : IsStabilizerState t) :
     ∃ adj gates, S2G.stateToGraph t = .ok (adj, gates) :=
   stateToGraph_complete t hn hstate.1 hstate.2
@@ -137,13 +141,13 @@ theorem state_to_graph_complete_real_commuting_independent (t : STab) (hn : 0 < 
     ∃ adj gates, S2G.stateToGraph t = .ok (adj, gates) :=
   state_to_graph_exact_complete t hn ⟨⟨hreal, hcomm⟩, hind⟩
 
-/-! ### the floating-point lines of `_graph_finder`, read in exact arithmetic
+/-! ### the former floating-point lines of `_graph_finder`, read in exact arithmetic (history; the code no longer contains them)
 
-  `assert int(np.round(np.linalg.det(x_mat))) % 2 != 0` and `x_inv = (np.round(det(x_mat.T) * inv(x_mat.T)) % 2).astype(int)`:
-  for an integer matrix `det · inv` is the adjugate, an integer matrix; `S2G.adjInv` is that reading (`none` = the assertion fires).
-  Proved here: with it the conversion is complete and returns exactly what the executable model (Gauss–Jordan over GF(2)) returns.
-  NOT proved (compared per input by the harness; D49 was a failure of exactly this): that LAPACK's `det · inv` is within 1/2 of the
-  adjugate, i.e. that `np.round` recovers it. -/
+  Until /repo 70adac4 `_graph_finder` read `assert int(np.round(np.linalg.det(x_mat))) % 2 != 0` and
+  `x_inv = (np.round(det(x_mat.T) * inv(x_mat.T)) % 2).astype(int)`.  For an integer matrix `det · inv` is the adjugate, an integer matrix;
+  `S2G.adjInv` is that reading (`none` = the assertion fires).  Proved: with it the conversion is complete and returns exactly what the
+  Gauss–Jordan elimination returns — so the repair did not change any result the old code could compute correctly; what the old code
+  could not do is evaluate `det · inv` within 1/2 in floating point (D49: truncation; D51: from ≈ 42 qubits on the integers are lost). -/
 
 /-- **the determinant assertion cannot fire in exact arithmetic** (every n ≥ 1, every stabilizer state): the integer determinant of
     `x_mat` after `row_reduction` and the Hadamards chosen by the repaired `_position_finder` is odd (so is that of `x_mat.T`) -/
@@ -306,8 +310,7 @@ theorem graph_round_trip (n : Nat) (hn : 0 < n) (adj : Adj) (hsym : ∀ i j, i <
     commuting tableau `t` that generates the signed group of `|G⟩`): the modelled `stabilizer_to_graph(validate=True)` returns `G`
     — `_graph_finder` returns (completeness), the graph it finds is `G` itself, and the closing comparison of the canonical forms
     ("Input stabilizer is not a graph state") does not fire; the modelled `state_to_graph` returns `(G, [])`: no Hadamard, no
-    `P_dag`, no sign-fixing `Z`.  (`graph_round_trip` is the special case `t = graph_to_stabilizer(G)`.)
-    Exact GF(2) inverses; the float `det · inv` of the Python is compared per input. -/
+    `P_dag`, no sign-fixing `Z`.  (`graph_round_trip` is the special case `t = graph_to_stabilizer(G)`.) -/
 theorem stabilizer_to_graph_complete (t : STab) (hn : 0 < t.n) (hg : t.Good) (adj : Adj)
     (hsym : ∀ i j, i < t.n → j < t.n → adj i j = adj j i) (hirr : ∀ i, i < t.n → adj i i = false)
     (hstate : ∀ p, t.Spn p ↔ (graphSTab t.n adj).Spn p) :
@@ -451,10 +454,10 @@ theorem density_to_graph_pair_negativity :
   ⟨⟨Neg.rhoPlus_group_sum, Neg.rhoEdge_group_sum⟩, Neg.negativity_plus, Neg.negativity_edge, Neg.threshold_separates⟩
 
 /- Not theorems of this development (kept visible): (1) the density-matrix side beyond the two exact halves above (dense complex
-   matrices, purity test, float eigenvalues, the closing `np.allclose` validation) — compared numerically per input; (2) that the Python's float `np.round(det · inv) % 2` equals the exact GF(2) inverse — not needed for soundness
-   (`state_to_graph_sound` quantifies over every candidate inverse); completeness (`state_to_graph_complete`) is proved for every
-   inverse computation that is correct on matrices with trivial kernel, and the float one is compared with the exact one per input by
-   the harness (D49 was such a disagreement).  Completeness itself was false before the repairs 86ab4f1 (D40) and 8a43724 (D49). -/
+   matrices, purity test, float eigenvalues, the closing `np.allclose` validation) — compared numerically per input; (2) the
+   correspondence of the model with the Python source — exact comparison (graph, gate list, error class) on every generated input, not a
+   proof.  No float step is left in `state_to_graph` since /repo 70adac4 (`_gf2_inverse`); completeness was false before the repairs
+   86ab4f1 (D40), 8a43724 (D49) and 70adac4 (D51). -/
 
 /-! ### Non-vacuity: the triangle graph through both constructions -/
 example : (List.range 3).all (fun i => (List.range 3).all fun j =>
